@@ -277,7 +277,7 @@ func checkC08(tier string) *Report {
 	w0 := worlds[0]
 	alpha := c08Alphabet(w0, tier)
 	dests := c08Dests()
-	x := &Explorer{Rep: rep, Prefix: alpha, Depth: -1, Revisit: true}
+	x := &Explorer{Rep: rep, Prefix: alpha, Depth: -1, Revisit: true, RecordGraph: true}
 	x.ModelInit = func(w *World) any { return pauseModel{P: map[string]bool{}, CC: map[string]bool{}} }
 	x.ModelStep = func(w *World, model any, op Op, res OpResult, pre, post sdk.Context) any {
 		return model.(pauseModel).step(w, op.Msg, res.Succeeded(), post)
@@ -428,6 +428,7 @@ func checkC08(tier string) *Report {
 		}
 	}
 	nodes := x.RunOn(worlds)
+	x.Tour(len(worlds)) // every edge of the reachable graph once more, on instances that live through ONE linear history
 	want := int64(32)
 	if tier == "thorough" {
 		want = 1024
